@@ -8,7 +8,8 @@ handshake between the control thread and any number of background threads, as im
   thread/threads/base.py     Thread.run skeleton, BackgroundThread.on_paused / on_resumed
   thread/threads/inference.py, training.py   hooks-then-flag order
   thread/threads/control.py  try_pause / resume / shutdown / save_state / on_tick
-  launcher.py                spawn, join, final save
+  launcher.py                spawn (an interrupt may cut the start-up short), shutdown, join of
+                             the threads that are alive, final save
 
 It is a labelled transition system `step : St → Act → Option St`. Every action is one primitive
 operation of one thread (one `threading.Event` / lock operation, one boundary of a user callback,
@@ -61,6 +62,7 @@ structure BThread where
   raised : Bool := false          -- ghost: a callback raised outside on_finally
   wSpawned : Bool := false        -- pause attempt in progress: worker spawned for this thread
   wRes : Option Bool := none      -- … and its result
+  joined : Bool := false          -- ghost: launch()'s epilogue has dealt with this thread (found it not alive, or joined it)
 deriving DecidableEq, Repr
 
 inductive Cont | cmd | save
@@ -128,6 +130,7 @@ inductive Act
   | cCmdShutdown               -- the drain loop dequeued SHUTDOWN
   | cUptime                    -- the uptime test `now - start > max_uptime` came out true
   | cExc                       -- an exception / interrupt unwinds the control loop
+  | cIsAlive (t : Nat) (v : Bool)   -- launch()'s epilogue: `thread.is_alive()`
   | cJoin (t : Nat)
   | cFinalSaveBegin | cFinalSaveEnd | cReturn
 deriving DecidableEq, Repr
@@ -361,17 +364,31 @@ def cstep (s : St) : Act → Option St
       else none
     | none => none
   | .cExc =>
-    -- an exception or interrupt leaves whatever the control loop was doing; `on_finally` follows
-    if s.ctl.pc ≠ .boot ∧ s.ctl.pc ≠ .returned ∧ s.ctl.pc ≠ .finalIn ∧ s.ctl.stopped = false then
+    -- an exception or interrupt leaves whatever the control thread was doing - the control loop
+    -- (`on_finally` follows) or, at `boot`, the start-up section of `launch()` with some, all or
+    -- none of the background threads started (its `finally` follows): no thread is started afterwards
+    if s.ctl.pc ≠ .returned ∧ s.ctl.pc ≠ .finalIn ∧ s.ctl.stopped = false then
       some { s with ctl := { s.ctl with pc := .idle, mustStop := true, ctlFault := true, inCb := false } }
     else none
-  | .cJoin t =>
+  | .cIsAlive t v =>
+    -- `Thread.is_alive()`: true from `start()` until the thread's `run` has ended
     match s.thr[t]? with
     | some th =>
-      if s.ctl.pc = .idle ∧ s.ctl.stopped = true ∧ th.pc = .done then some s else none
+      if s.ctl.pc = .idle ∧ s.ctl.stopped = true ∧ v = (th.pc != .new && th.pc != .done) then
+        some (if v then s else s.setThr t { th with joined := true })
+      else none
+    | none => none
+  | .cJoin t =>
+    -- `Thread.join()` returns once the thread's `run` has ended
+    match s.thr[t]? with
+    | some th =>
+      if s.ctl.pc = .idle ∧ s.ctl.stopped = true ∧ th.pc = .done then
+        some (s.setThr t { th with joined := true })
+      else none
     | none => none
   | .cFinalSaveBegin =>
-    if s.ctl.pc = .idle ∧ s.ctl.stopped = true ∧ s.thr.all (fun x => x.pc == .done) = true then
+    -- only after the epilogue has dealt with every thread
+    if s.ctl.pc = .idle ∧ s.ctl.stopped = true ∧ s.thr.all (fun x => x.joined) = true then
       some { s with ctl := { s.ctl with pc := .finalIn } }
     else none
   | .cFinalSaveEnd =>
